@@ -282,3 +282,13 @@ def is_conversion_fn(ctx, e):
         r = rets[0].ret
         return callee_is(r, "Into::into", "From::from") and len(r[3]) == 1 and r[3][0][:2] == ("cparam", 2) and len(rets[0].calls()) == 1
     return False
+
+
+def check_population_size(ctx, rule):
+    """the blanket Population impl reports the collection's own length"""
+    f = ctx.fn("<T as ec_core::population::Population>::size")
+    ps = return_paths(ctx.paths(f))
+    ok = len(ps) == 1 and match(ps[0].ret, Call("ExactSizeIterator::len", Through(Call("IntoIterator::into_iter", Param(1), nargs=1)), nargs=1)) and len(ps[0].calls()) == 2 and \
+        not [e for e in ps[0].events if e[0] == "assert"]
+    ctx.check(ok, rule, "Population::size=into_iter().len()", short(ps[0].ret, 4) if ps else "-", f.at(),
+              bad_detail="Population::size must be the exact length of the collection ((&self).into_iter().len()); extracted " + "; ".join(short(p.ret, 6) for p in ps))
